@@ -299,6 +299,31 @@ SPECIAL = [
     (["x", "st"], "len([x, st, x]) > 100 and (x, st) is None", {"x": 1, "st": "STRICTEQ"}),
     (["x", "we"], "[we, x][1] > 100", {"x": 1, "we": "WEIRDEQ"}),
     (["x", "we"], "len((x, we, [we])) > 100", {"x": 1, "we": "WEIRDEQ"}),
+    # `all` is what the name resolves to, not how it is spelled
+    (["xs", "all"], "all(e > 0 for e in xs)", {"xs": [1, 2], "all": "OWNALL"}),
+    (["xs", "all"], "all(e > 0 for e in xs) or len(xs) > 100", {"xs": [], "all": "OWNALL"}),
+    (["xs", "all"], "all(e for e in xs)", {"xs": [None, 0, 3], "all": "OWNALL_SKIPNONE"}),
+    (["xs", "every"], "every(e > 0 for e in xs)", {"xs": [1, -1, -2], "every": "BUILTIN_ALL"}),
+    (["xs", "every"], "not every(e > 0 for e in xs) and len(xs) > 100", {"xs": [1, -1], "every": "BUILTIN_ALL"}),
+    (["xs", "all", "every"], "every(e > 0 for e in xs) and all(e > 0 for e in xs)", {"xs": [3, -1], "every": "BUILTIN_ALL", "all": "OWNALL"}),
+    # a comprehension target that shadows an argument which is needed again afterwards
+    (["s"], "all(len(s) > 5 for s in s.split())", {"s": "ab cd"}),
+    (["xs", "n"], "all(n > 0 for n in xs) or all(m > n for m in xs)", {"xs": [-1, 2], "n": 3}),
+    (["xs", "n"], "any(n > 5 for n in xs) or [m for m in xs if m > n] == [99]", {"xs": [-1, 2], "n": 3}),
+    (["xs", "n"], "len([n for n in xs]) > 5 or any(m > n for m in xs)", {"xs": [-1, 2], "n": 3}),
+    (["xs", "n"], "{n for n in xs} == {99} or any(m > n for m in xs)", {"xs": [-1, 2], "n": 3}),
+    (["xs", "n"], "{n: 1 for n in xs} == {} or any(m > n for m in xs)", {"xs": [-1, 2], "n": 3}),
+    # expression texts one of which is a prefix of the other, continued by a space (the lines are sorted by TEXT)
+    (None, "xs [0] > 100 or len(xs) > 100", {"xs": [1, 2]}),
+    (None, "abs (x) > 100 and abs(x) > 0 or abs (x) + abs( y) > 100", {"x": 1, "y": 2}),
+    (None, "o .a > 100 or o.b == 5 or o .b == [99]", {"oa": 1, "ob": [2]}),
+    (None, "d ['a'] > 100 or len(d) > 100", {"d": {"a": 1}}),
+    # built-in constants are built-ins too: no line for them
+    (None, "x is not NotImplemented and x > 100", {"x": 1}),
+    (None, "x is not Ellipsis and x is not ... and x > 100", {"x": 1}),
+    (None, "__debug__ and x > 100", {"x": 1}),
+    (None, "(x, NotImplemented, Ellipsis, __debug__)[0] > 100", {"x": 1}),
+    (["x", "id", "max"], "id is not None and max is None and x > 100", {"x": 1, "id": 5, "max": None}),
     (None, "f'{x:>{y}}' == 'zzz'", {"x": 1, "y": 3}),
     (None, "f'{s!r}-{x}' == 'zzz'", {}),
     (None, "{e for e in xs} == {99}", {"xs": [1, 2]}),
